@@ -56,7 +56,14 @@ fn main() {
         }
         "emit" => {
             // gev emit <group.json>: {"files":[[path,src]...],"scripts":[[path,js]...],"order":[indices]?} -> bundle on stdout
-            let text = std::fs::read_to_string(&args[2]).unwrap_or_else(|_| usage());
+            let text = if args.get(2).map(|s| s.as_str()) == Some("-") {
+                let mut t = String::new();
+                use std::io::Read;
+                std::io::stdin().read_to_string(&mut t).unwrap_or_else(|_| usage());
+                t
+            } else {
+                std::fs::read_to_string(&args[2]).unwrap_or_else(|_| usage())
+            };
             let v: serde_json::Value = serde_json::from_str(&text).unwrap_or_else(|_| usage());
             std::process::exit(checks::c20_emit(&v));
         }
